@@ -1482,7 +1482,7 @@ class BADS:
                 yval_vec = np.empty(self.options["noise_final_samples"])
                 ysd_vec = np.empty(self.options["noise_final_samples"])
                 for i_sample in range(self.options["noise_final_samples"]):
-                    y, y_sd, _ = self.function_logger(
+                    y, y_sd, idx_u = self.function_logger(
                         self.u, record_duplicate_data=False
                     )
                     yval_vec[i_sample] = y
@@ -1496,6 +1496,8 @@ class BADS:
                                 ysd_vec,
                                 self.function_logger.S[
                                     self.function_logger.Xn
+                                    if idx_u is None
+                                    else idx_u
                                 ],
                             )
                         )
